@@ -177,6 +177,7 @@ pub struct Hist<'o> {
     pub resync: bool,
     pub foreign_viols: u32,
     pub tmp_recycled: bool,
+    pub unobserved_releases: u32,
     pub closed: bool,
 }
 
@@ -338,6 +339,11 @@ impl<'o> Hist<'o> {
                 st0, self.model.cursor, self.model.cap, self.model.min_seg
             );
             self.diverge(msg);
+            return;
+        }
+        if st0.data_offset != self.model.data_offset {
+            let msg = format!("data_offset() changed from {} to {} during the history", self.model.data_offset, st0.data_offset);
+            self.viol(&["C16"], "data-offset-changed", msg);
             return;
         }
         if st0.discarded < self.model.discarded {
